@@ -21,7 +21,7 @@
    schedule) are schedules of micro-steps (last two theorems), so everything
    below applies to them. *)
 From RxVerif Require Import Base.Prelude Core.Trampoline Core.TrampolineFacts Core.TrampolineOrder
-  Core.TrampolineSeq.
+  Core.TrampolineSeq Core.TrampolineTerm.
 
 (* One at a time, never nested: when an action of a trampoline starts, no other
    action of that trampoline is being executed (by any thread), ... *)
@@ -123,6 +123,22 @@ Theorem C30_dropped_only_by_exception : forall c0 hs sch k ids exn,
   In (EDrop k ids exn) (log (fst (crun (Cfg false) (start_config c0 hs) sch))) -> exn = true.
 Proof. exact dropped_only_by_exception. Qed.
 Print Assumptions C30_dropped_only_by_exception.
+
+(* "Eventually runs": on one thread every call returns -- the sequential run of ANY history ends
+   within the fuel [run_history] gives it (a potential that every micro-step decreases: 16 per
+   schedule call, 2 per raise, 1 per other command) -- and when it has returned every item that
+   was enqueued has been started, skipped as cancelled or dropped, and every trampoline is idle
+   with an empty queue *)
+Theorem C30_sequential_run_terminates : forall c c0 h, exists w', run_history c c0 h = Finished w'.
+Proof. exact run_history_finishes. Qed.
+Print Assumptions C30_sequential_run_terminates.
+
+Theorem C30_every_call_returns_and_all_run : forall c c0 h,
+  exists w', run_history c c0 h = Finished w' /\
+    (forall k id, ~ pending k id (log w')) /\
+    (forall k, t_idle (tramps w' k) = true /\ t_queue (tramps w' k) = [] /\ t_active (tramps w' k) = 0%nat).
+Proof. exact run_history_all_run. Qed.
+Print Assumptions C30_every_call_returns_and_all_run.
 
 (* Sequential and controlled runs are schedules *)
 Theorem C30_sequential_run_is_a_schedule : forall c c0 h,
